@@ -6,7 +6,7 @@ import obs
 ID = "C09"
 REQUIRES = ["Agree", "StructSpec", "Truth"]
 THEOREM_REQUIRES = ["C09"]
-THEOREMS = ["C09_holds_bool", "C09_non_interference", "C09_fields_only_mv"]
+THEOREMS = ["C09_holds_bool", "C09_non_interference", "C09_non_interference_text", "C09_fields_only_mv"]
 PROOF_FILES = ["Proofs/GenInv.v", "Proofs/TypeDfs.v", "Proofs/StructProof.v", "Properties/C09.v"]
 RULE = ("random type DAGs: host structs (scalars, vec2-4 of f32/i32/u32, all 9 matrix shapes, atomics, fixed arrays incl. "
         "arrays of structs, nesting <= 3, shared members, optional trailing runtime-sized array) used by globals in "
